@@ -188,6 +188,10 @@ pub trait Group: Sync {
     fn parallel(&self) -> bool {
         true
     }
+    /// the run could not be carried out as planned (timing jitter, port clash): neither compared nor judged
+    fn inconclusive(&self, impl_out: &str) -> bool {
+        impl_out.starts_with("inconclusive")
+    }
     /// human readable rule for the evidence
     fn rule(&self) -> &'static str;
 }
@@ -212,23 +216,27 @@ fn run_lines(g: &dyn Group, ctx: &Ctx, lines: &[String]) -> Vec<String> {
     if threads == 1 || lines.len() < 64 {
         return lines.iter().map(|l| guarded(|| g.run_impl(ctx, l))).collect();
     }
-    let chunk = (lines.len() + threads - 1) / threads;
-    let mut out: Vec<Vec<String>> = Vec::new();
+    // round-robin so that slow (timed) cases, which generators emit first, spread over the threads
+    let mut out: Vec<String> = vec![String::new(); lines.len()];
     std::thread::scope(|s| {
-        let hs: Vec<_> = lines
-            .chunks(chunk)
-            .map(|c| s.spawn(move || c.iter().map(|l| guarded(|| g.run_impl(ctx, l))).collect::<Vec<_>>()))
+        let hs: Vec<_> = (0..threads)
+            .map(|j| s.spawn(move || (j..lines.len()).step_by(threads).map(|i| (i, guarded(|| g.run_impl(ctx, &lines[i])))).collect::<Vec<_>>()))
             .collect();
         for h in hs {
-            out.push(h.join().unwrap());
+            for (i, o) in h.join().unwrap() {
+                out[i] = o;
+            }
         }
     });
-    out.into_iter().flatten().collect()
+    out
 }
 
 /// does `line` still fail (disagree with the model, or fail the oracle)?
 fn still_fails(g: &dyn Group, ctx: &Ctx, line: &str, want_oracle: bool) -> bool {
     let io = guarded(|| g.run_impl(ctx, line));
+    if g.inconclusive(&io) {
+        return false;
+    }
     if want_oracle {
         return g.oracle(ctx, line, &io).is_some();
     }
@@ -272,7 +280,7 @@ pub fn run_group(g: &dyn Group, ctx: &Ctx, rng: &mut Rng, corpus: &[String], onl
         lines.extend(g.generate(ctx, rng));
     }
     let impl_out = run_lines(g, ctx, &lines);
-    let cmp_idx: Vec<usize> = (0..lines.len()).filter(|i| g.compare_with_model(&lines[*i])).collect();
+    let cmp_idx: Vec<usize> = (0..lines.len()).filter(|i| g.compare_with_model(&lines[*i]) && !g.inconclusive(&impl_out[*i])).collect();
     let cmp_lines: Vec<String> = cmp_idx.iter().map(|i| lines[*i].clone()).collect();
     let mut res = GroupResult { name: g.name().into(), rule: g.rule().into(), ..Default::default() };
     let model_out = match run_driver(&ctx.driver, &cmp_lines) {
@@ -287,6 +295,10 @@ pub fn run_group(g: &dyn Group, ctx: &Ctx, rng: &mut Rng, corpus: &[String], onl
     let mut distinct = BTreeSet::new();
     for (i, l) in lines.iter().enumerate() {
         res.max_len = res.max_len.max(l.len());
+        if g.inconclusive(&impl_out[i]) {
+            *res.histogram.entry("inconclusive".into()).or_default() += 1;
+            continue;
+        }
         *res.histogram.entry(g.classify(l, &impl_out[i])).or_default() += 1;
         if g.nontrivial(l, &impl_out[i]) {
             distinct.insert(l.clone());
